@@ -24,7 +24,7 @@ const N: usize = 8;
 
 /// hand-written templates with one renamable local `@L@` placed next to every kind of name it could collide
 /// with (sibling / parent-module functions, the module's own name, top-level functions, desugaring temporaries)
-const TEMPLATES: [(&str, &[&str]); 3] = [
+const TEMPLATES: [(&str, &[&str]); 8] = [
     (
         "mod m {\n  pub fn shape(x) {\n    x * 100.0\n  }\n  pub fn run(@L@, x) {\n    @L@ + x\n  }\n  pub fn run2(x) {\n    let @L@ = x * 0.5\n    @L@ + 1.0\n  }\n  pub fn run3(x) {\n    |@L@| @L@ + x\n  }\n}\nfn other(x) {\n  x * 7.0\n}\nfn dsp(x) {\n  m::run(2.0, x) + m::run2(x) + m::shape(0.0) + m::run3(x)(1.0) + other(0.0)\n}\n",
         &["shape", "run", "run2", "run3", "m", "other", "dsp", "lambda_0", "_mimium_global"],
@@ -37,19 +37,55 @@ const TEMPLATES: [(&str, &[&str]); 3] = [
         "fn dsp(x) {\n  let r = {a = 1.0, b = 2.0}\n  let @L@ = 5.0 + x\n  let r2 = {r <- a = @L@}\n  r2.a + r2.b\n}\n",
         &["record_update_temp", "r2", "a", "__dt0", "lambda_0"],
     ),
+    // binders of every kind, and record keys, named like module members that are imported (wildcard or by name) but not
+    // referred to inside the binder's scope
+    (
+        "mod m {\n  pub fn gain(x) {\n    x * 3.0\n  }\n  pub fn pan(x) {\n    x + 200.0\n  }\n  pub fn unused(x) {\n    x\n  }\n}\nuse m::*\nfn dsp(x) {\n  let r = {position = 3.0, level = 2.0}\n  let {position = @L@, level = lv} = r\n  @L@ + lv + pan(x)\n}\n",
+        &["gain", "unused", "m", "position", "level"],
+    ),
+    (
+        "mod m {\n  pub fn gain(x) {\n    x * 3.0\n  }\n  pub fn pan(x) {\n    x + 200.0\n  }\n}\nuse m::gain\nuse m::pan\nfn dsp(x) {\n  let r = {@L@ = 3.0, level = 2.0}\n  let {@L@ = p, level = lv} = r\n  p + lv + pan(x) + r.@L@\n}\n",
+        &["gain", "pan", "m", "p", "dsp"],
+    ),
+    (
+        "mod m {\n  pub fn gain(x) {\n    x * 3.0\n  }\n  pub fn pan(x) {\n    x + 200.0\n  }\n}\nuse m::*\nfn h(@L@) {\n  @L@ * 2.0\n}\nfn dsp(x) {\n  let (@L@, b) = (x, 1.0)\n  let f = |@L@| @L@ + b\n  f(@L@) + h(b) + pan(x)\n}\n",
+        &["gain", "m"],
+    ),
+    (
+        "mod m {\n  pub fn gain(x) {\n    x * 3.0\n  }\n  pub fn pan(x) {\n    x + 200.0\n  }\n}\nuse m::{gain, pan}\nfn dsp(x) {\n  letrec @L@ = |n| if (n > 0.5) @L@(n - 1.0) + 1.0 else x\n  let v = match (x, 2.0) {\n    (a, b) => a + b\n  }\n  @L@(2.0) + v + pan(x)\n}\n",
+        &["gain", "m"],
+    ),
+    // names the self/feedback conversion and the lambda lifting give their temporaries
+    (
+        "fn cnt(@L@) {\n  self + @L@\n}\nfn dsp(x) {\n  let @L@ = x + 1.0\n  let f = |y| y + @L@\n  cnt(@L@) + f(1.0)\n}\n",
+        &["feed_id0", "feed_id1", "feed_id", "lambda_0", "closure_0", "dsp", "state", "self_"],
+    ),
+];
+/// hand-written (base, transformed) pairs for transformations the AST-level enumerator does not produce: an agreeing
+/// annotation on a lambda parameter in front of every kind of body (the `|` that closes the parameter list must not be
+/// read as a union type), redundant parentheses around the body of an annotated lambda
+const PAIRS: [(&str, &str, &str, &str); 6] = [
+    ("fn dsp(x) {\n  let f = |y| (y + 1.0)\n  f(x)\n}\n", "fn dsp(x) {\n  let f = |y: float| (y + 1.0)\n  f(x)\n}\n", "annotation", "lambda parameter y, parenthesised body"),
+    ("fn dsp(x) {\n  let f = |y: float| y + 1.0\n  f(x)\n}\n", "fn dsp(x) {\n  let f = |y: float| (y + 1.0)\n  f(x)\n}\n", "parens", "body of an annotated lambda"),
+    ("fn dsp(x) {\n  let f = |y| [y, 2.0]\n  f(x)[0]\n}\n", "fn dsp(x) {\n  let f = |y: float| [y, 2.0]\n  f(x)[0]\n}\n", "annotation", "lambda parameter y, array body"),
+    ("fn ap(g, v) {\n  g(v)\n}\nfn dsp(x) {\n  let z = 3.0\n  ap(|y| z, x)\n}\n", "fn ap(g, v) {\n  g(v)\n}\nfn dsp(x) {\n  let z = 3.0\n  ap(|y: float| z, x)\n}\n", "annotation", "lambda parameter y, body a variable followed by a comma"),
+    ("fn ap(v, g) {\n  g(v)\n}\nfn dsp(x) {\n  let z = 3.0\n  ap(x, |y| z)\n}\n", "fn ap(v, g) {\n  g(v)\n}\nfn dsp(x) {\n  let z = 3.0\n  ap(x, |y: float| z)\n}\n", "annotation", "lambda parameter y, body a variable followed by a closing parenthesis"),
+    ("fn dsp(x) {\n  let f = |y, w| {\n    y + w\n  }\n  f(x, 1.0)\n}\n", "fn dsp(x) {\n  let f = |y: float, w: float| -> float {\n    y + w\n  }\n  f(x, 1.0)\n}\n", "annotation", "lambda parameters and return type, block body"),
 ];
 fn n_templates() -> u64 {
-    TEMPLATES.iter().map(|t| t.1.len() as u64).sum()
+    TEMPLATES.iter().map(|t| t.1.len() as u64).sum::<u64>() + PAIRS.len() as u64
 }
-fn template_case(mut k: u64) -> (String, String, String) {
+/// (base, transformed, what, kind)
+fn template_case(mut k: u64) -> (String, String, String, &'static str) {
     for (text, names) in TEMPLATES.iter() {
         if k < names.len() as u64 {
             let n = names[k as usize];
-            return (text.replace("@L@", "q"), text.replace("@L@", n), format!("local q -> {n}"));
+            return (text.replace("@L@", "q"), text.replace("@L@", n), format!("local q -> {n}"), "rename");
         }
         k -= names.len() as u64;
     }
-    unreachable!()
+    let (b, t, kind, what) = PAIRS[k as usize];
+    (b.to_string(), t.to_string(), what.to_string(), if kind == "parens" { "parens" } else { "annotation" })
 }
 
 fn observe(b: Backend, src: &str, nin: usize) -> Result<Vec<Vec<f64>>, RunErr> {
@@ -79,9 +115,10 @@ impl Prop for C16 {
     fn run_case(&self, tier: Tier, idx: u64) -> CaseOut {
         let nfam = space(tier).n() * TMAX;
         let (src, v, mut tags, family, inputs) = if idx >= nfam {
-            let (base, transformed, what) = template_case(idx - nfam);
+            let (base, transformed, what, kind) = template_case(idx - nfam);
             let name = what.rsplit(' ').next().unwrap().to_string();
-            (base, xform::Variant { source: transformed, kind: "rename", what, tags: vec!["rename".into(), "rename_to_name_used_elsewhere".into(), format!("rename_to_{name}")] }, vec!["template".to_string()], "template", 1usize)
+            let vtags = if kind == "rename" { vec!["rename".into(), "rename_to_name_used_elsewhere".into(), format!("rename_to_{name}")] } else { vec![kind.to_string(), "hand_written_pair".into()] };
+            (base, xform::Variant { source: transformed, kind, what, tags: vtags }, vec!["template".to_string()], "template", 1usize)
         } else {
             let (base, t) = (idx / TMAX, idx % TMAX);
             let (_, g) = space(tier).get(base);
@@ -143,8 +180,8 @@ impl Prop for C16 {
     }
     fn describe_case(&self, tier: Tier, idx: u64) -> (Value, Vec<String>) {
         if idx >= space(tier).n() * TMAX {
-            let (b, _, what) = template_case(idx - space(tier).n() * TMAX);
-            return (json!({"transformation": "rename", "what": what, "base_source": b}), vec!["template".into()]);
+            let (b, _, what, kind) = template_case(idx - space(tier).n() * TMAX);
+            return (json!({"transformation": kind, "what": what, "base_source": b}), vec!["template".into()]);
         }
         let (base, t) = (idx / TMAX, idx % TMAX);
         if let (_, Some(g)) = space(tier).get(base) {
